@@ -1574,7 +1574,7 @@ class Variable(TypeQualifier):
 
     @_intrinsic
     def __imatmul__(self, value):
-        self.next = value
+        self.value = value
         return self
 
     _intrinsic_replacement(__imatmul__, assignment_spec=(0, 1))(
